@@ -361,7 +361,21 @@ def write_replay(pid, kind, sig, f):
 def replay_file(check, path, as_json=False):
     with open(path) as fh:
         doc = json.load(fh)
-    r = check.replay(doc["witness"])
+    # the same per-item watchdog as in a run: an item that hangs replays as "hang"
+    signal.signal(signal.SIGALRM, _alarm)
+    signal.alarm(getattr(check, "item_timeout", ITEM_TIMEOUT))
+    try:
+        r = check.replay(doc["witness"])
+    except Hang:
+        r = Res()
+        r.fail("hang", f"hang:{doc['witness'].get('family')}", "item did not finish within "
+               f"{getattr(check, 'item_timeout', ITEM_TIMEOUT)}s")
+    except RecursionError:
+        r = Res()
+        r.fail("crash", f"crash:{doc['witness'].get('family')}:RecursionError",
+               "RecursionError in harness/item")
+    finally:
+        signal.alarm(0)
     fails = sorted((f["kind"], f["sig"], f["detail"]) for f in r.fails)
     if as_json:
         print(json.dumps(fails))
@@ -378,8 +392,12 @@ def deterministic_replay(pid, path):
     """Replay twice in fresh subprocesses; both observations must agree."""
     outs = []
     for _ in range(2):
-        pr = subprocess.run([sys.executable, "-m", "vf.run", pid, "--replay", path, "--json"],
-                            cwd=VERIF, capture_output=True, text=True, timeout=600)
+        try:
+            pr = subprocess.run([sys.executable, "-m", "vf.run", pid, "--replay", path, "--json"],
+                                cwd=VERIF, capture_output=True, text=True, timeout=1200)
+        except subprocess.TimeoutExpired:
+            outs.append('[["hang", "replay", "the replay did not finish within 1200 s"]]')
+            continue
         outs.append(pr.stdout.strip().splitlines()[-1] if pr.stdout.strip() else pr.stderr[-300:])
     if outs[0] == outs[1]:
         return True, outs
